@@ -17,10 +17,17 @@ package control
 //   evicted <key>* (what one real evictExpiredDnsCache run removed) | cfg <dial_mode value|absent> (real config parse)
 //   dial <ob> <dst> <name> <rt> <nOut> <failfirst> <ans>*   (TCP routeDial; UDP never uses this target, see note)
 //   norm|pa|shp|iplike|canon <s> | jhp <h> <p> | ap <dst> | resv <n>
+//   tun <sniff thr> <sniff ttl ns> <excluded ports> <so_mark> <tuple retry ns>   (tunables read from the running code)
+//   cdth <ob> <dst> <name> (ChooseDialTarget, the resolvers of <name> do not answer yet) | rel <name> <ans>* | relx <name>
+//   gen <mode> <nboot> <reuse|restore> (a new ControlPlane generation) | negclean (cleanupNegativeCaches) | sneg <dst> <meta>
+//   conn <kernel outbound|-> <local addr> <payload kind> <host value> <sniff timeout ns> <rt0> <rt1> <rm0> <rm1> <nOut> <fail> <meta> <ans>*
+//        (a whole connection through the REAL handleConn) | connend <ns>
+//   dns/dnsresp/reload … f1|f2   (fault injection: NewCache hook fails / cache-access callback fails)
 
 import (
 	"context"
 	"encoding/hex"
+	"errors"
 	"fmt"
 	"io"
 	"net"
@@ -36,6 +43,7 @@ import (
 	"time"
 
 	"github.com/bits-and-blooms/bloom/v3"
+	"github.com/cilium/ebpf"
 	"github.com/daeuniverse/dae/common/consts"
 	"github.com/daeuniverse/dae/common/netutils"
 	"github.com/daeuniverse/dae/component/outbound"
@@ -88,11 +96,20 @@ type c18RecDialer struct {
 	tag      int
 	log      *[]string
 	failNext *int // shared by all node dialers: the next dial fails (1 = ENETUNREACH, 2 = ECONNREFUSED, 3 = i/o timeout)
+	at       *[]time.Time
+	ok       *bool // set when a dial succeeded
 }
 
 func (d *c18RecDialer) DialContext(_ context.Context, network, addr string) (netproxy.Conn, error) {
 	d.mu.Lock()
-	*d.log = append(*d.log, fmt.Sprintf("%d|%s", d.tag, addr))
+	mark := "?"
+	if mn, err := netproxy.ParseMagicNetwork(network); err == nil {
+		mark = strconv.FormatUint(uint64(mn.Mark), 10)
+	}
+	*d.log = append(*d.log, fmt.Sprintf("%d|%s|%s", d.tag, mark, addr))
+	if d.at != nil {
+		*d.at = append(*d.at, time.Now())
+	}
 	fail := *d.failNext
 	*d.failNext = 0
 	d.mu.Unlock()
@@ -107,6 +124,9 @@ func (d *c18RecDialer) DialContext(_ context.Context, network, addr string) (net
 		default:
 			return nil, &net.OpError{Op: "dial", Net: network, Err: os.ErrDeadlineExceeded}
 		}
+	}
+	if d.ok != nil {
+		*d.ok = true
 	}
 	return c18Conn{}, nil
 }
@@ -368,34 +388,61 @@ type c18World struct {
 	allOuts []*outbound.DialerGroup
 	matcher *RoutingMatcher
 	log     *logrus.Logger
+	// probes whose resolvers do not answer until released (per name), and when each started
+	holdNames map[string]chan struct{}
+	heldStart map[string]time.Time
+	heldOrder []string
+	// fault injection into the DNS store's hooks
+	failNewCache, failAccessCb bool
+	// the kernel's conn_state_map (nil: bpf(2) unavailable)
+	connMap *ebpf.Map
+	core    *controlPlaneCore
 }
 
 // the design capacity of the verified-name filter (control_plane.go realDomainSetCapacity, model realCap)
 const c18RealCap = 2048
 
 func (w *c18World) reset() {
-	ctrl := w.newCtrl()
+	w.ctrl = w.newCtrl()
+	w.cp = w.newCP(w.ctrl, consts.DialMode_Ip, []netip.AddrPort{netip.MustParseAddrPort("10.0.0.1:53")})
+	w.script = map[string][]string{}
+	w.probed = map[string]bool{}
+	w.perRes = map[int]int{}
+	w.hold = nil
+	w.holdNames = map[string]chan struct{}{}
+	w.heldStart = map[string]time.Time{}
+	w.heldOrder = nil
+	w.failNewCache, w.failAccessCb = false, false
+}
+
+// one ControlPlane generation (the fields the dial decision reads; control_plane.go newControlPlaneWithContextOptions)
+func (w *c18World) newCP(ctrl *DnsController, mode consts.DialMode, boots []netip.AddrPort) *ControlPlane {
 	ctx, cancel := context.WithCancel(context.Background())
-	w.ctrl = ctrl
-	w.cp = &ControlPlane{
-		// the production constructor's filter (control_plane.go newControlPlaneWithContextOptions)
+	cp := &ControlPlane{
+		// the production constructor's filter
 		realDomainSet: bloom.NewWithEstimates(c18RealCap, 0.001),
 		log:           w.log,
 		ctx:           ctx,
 		cancel:        cancel,
 		soMarkFromDae: 0x100,
+		core:          w.core,
 		controlPlaneGenerationState: controlPlaneGenerationState{
-			dialMode:           consts.DialMode_Ip,
-			bootstrapResolvers: []netip.AddrPort{netip.MustParseAddrPort("10.0.0.1:53")},
+			dialMode:           mode,
+			bootstrapResolvers: boots,
 			outbounds:          w.allOuts,
 			routingMatcher:     w.matcher,
 		},
 	}
-	w.cp.dnsController = ctrl
-	w.script = map[string][]string{}
-	w.probed = map[string]bool{}
-	w.perRes = map[int]int{}
-	w.hold = nil
+	cp.dnsController = ctrl
+	return cp
+}
+
+func c18Boots(n int) []netip.AddrPort {
+	rs := make([]netip.AddrPort, n)
+	for i := range rs {
+		rs[i] = netip.AddrPortFrom(netip.AddrFrom4([4]byte{10, 0, 0, byte(i + 1)}), 53)
+	}
+	return rs
 }
 
 func (w *c18World) newCtrl() *DnsController {
@@ -403,15 +450,35 @@ func (w *c18World) newCtrl() *DnsController {
 	// no janitor / evictor goroutine is started for this store: Close must not wait for them
 	store.janitorDone, store.evictorDone = nil, nil
 	ctrl := &DnsController{dnsControllerStore: store}
-	_ = ctrl.TryUpdateRuntime(&DnsControllerOption{
+	_ = ctrl.TryUpdateRuntime(w.dnsOption(), nil)
+	return ctrl
+}
+
+func (w *c18World) dnsOption() *DnsControllerOption {
+	return &DnsControllerOption{
 		Log: w.log,
 		// a fixed cache TTL changes Deadline only; knowledge must follow the ORIGINAL deadline
 		FixedDomainTtl: map[string]int{"a.test": 1, "www.example.com": 3600, "re.test": 0},
 		NewCache: func(fqdn string, answers, ns, extra []dnsmessage.RR, deadline, originalDeadline time.Time) (*DnsCache, error) {
+			if w.failNewCache {
+				return nil, errors.New("c18: injected NewCache failure")
+			}
 			return &DnsCache{Answer: answers, NS: ns, Extra: extra, Deadline: deadline, OriginalDeadline: originalDeadline}, nil
 		},
-	}, nil)
-	return ctrl
+		// production: BatchUpdateDomainRouting (a kernel map batch update, which can fail)
+		CacheAccessCallback: func(*DnsCache) error {
+			if w.failAccessCb {
+				return errors.New("c18: injected BatchUpdateDomainRouting failure")
+			}
+			return nil
+		},
+		CacheDeleteCallback: func(string, *DnsCache) error {
+			if w.failAccessCb {
+				return errors.New("c18: injected BatchRemoveDomainRouting failure")
+			}
+			return nil
+		},
+	}
 }
 
 func (w *c18World) peekKnowledge(d string, dst netip.AddrPort) bool {
@@ -443,8 +510,13 @@ func c18BuildMatcher(t *testing.T, log *logrus.Logger) *RoutingMatcher {
 			Outbound:     config_parser.Function{Name: out},
 		}
 	}
+	marked := func(rr *config_parser.RoutingRule, mark string) *config_parser.RoutingRule {
+		rr.Outbound.Params = []*config_parser.Param{{Key: consts.OutboundParam_Mark, Val: mark}}
+		return rr
+	}
 	rules := []*config_parser.RoutingRule{
-		dom("suffix", "re.test", "g2"),
+		// the routing answer carries a socket mark: after a re-route by name the dial must use it
+		marked(dom("suffix", "re.test", "g2"), "0x77"),
 		dom("full", "direct.test", "direct"),
 		dom("keyword", "blk", "block"),
 		// rules on the packet metadata chooseProxyDialer has to hand to Route unchanged
@@ -460,10 +532,18 @@ func c18BuildMatcher(t *testing.T, log *logrus.Logger) *RoutingMatcher {
 			AndFunctions: []*config_parser.Function{{Name: consts.Function_Mac, Params: []*config_parser.Param{{Val: "02:00:00:00:00:01"}}}},
 			Outbound:     config_parser.Function{Name: "direct"},
 		},
+		// the transport protocol handed to Route (chooseProxyDialer: "udp" -> UDP, anything else TCP)
 		{
+			AndFunctions: []*config_parser.Function{
+				{Name: consts.Function_L4Proto, Params: []*config_parser.Param{{Val: "udp"}}},
+				{Name: consts.Function_Port, Params: []*config_parser.Param{{Val: "8443"}}},
+			},
+			Outbound: config_parser.Function{Name: "g2"},
+		},
+		marked(&config_parser.RoutingRule{
 			AndFunctions: []*config_parser.Function{{Name: consts.Function_Ip, Params: []*config_parser.Param{{Val: "198.51.100.0/24"}}}},
 			Outbound:     config_parser.Function{Name: "g3"},
-		},
+		}, "9"),
 	}
 	b, err := NewRoutingMatcherBuilder(log, rules, map[string]uint8{"direct": 0, "block": 1, "g2": 2, "g3": 3, "g4": 4}, nil, config.FunctionOrString("g4"))
 	if err != nil {
@@ -497,6 +577,50 @@ func c18MixSeed(seed uint64) uint64 {
 	z = (z ^ (z >> 30)) * 0xBF58476D1CE4E5B9
 	z = (z ^ (z >> 27)) * 0x94D049BB133111EB
 	return z ^ (z >> 31)
+}
+
+// packet metadata the matcher has rules on
+func c18GenMeta(r *VRand, meta *proxyDialParam) string {
+	switch r.Intn(3) {
+	case 0:
+		meta.Dscp = 7
+		return "m=dscp7"
+	case 1:
+		copy(meta.ProcessName[:], "curl")
+		return "m=curl"
+	default:
+		meta.Mac = [6]uint8{2, 0, 0, 0, 0, 1}
+		return "m=mac"
+	}
+}
+
+// the sequence of (group, address) handed to node dialers, the socket mark of the last dial; an immediate
+// repeat of the same dial without an injected failure (e.g. a dual-stack dial) is not a difference
+func c18FmtDials(dialLog []string, injected bool, res *proxyDialResult, err error, probed bool) string {
+	var parts []string
+	for i, e := range dialLog {
+		if i > 0 && !injected && e == dialLog[i-1] {
+			continue
+		}
+		p := strings.SplitN(e, "|", 3)
+		parts = append(parts, fmt.Sprintf("ob=%s t=%s", p[0], c18Hex(p[2])))
+	}
+	if err != nil {
+		parts = append(parts, "err")
+		return strings.Join(parts, " ; ") // whether a probe was started is not compared when the dial fails anyway
+	}
+	if len(dialLog) == 0 {
+		return "no-dial-recorded"
+	}
+	last := strings.SplitN(dialLog[len(dialLog)-1], "|", 3)
+	if res != nil {
+		if last[2] != res.DialTarget {
+			return "dialed-address-differs-from-DialTarget"
+		}
+		parts[len(parts)-1] += " ip=" + c18Bool(res.IsDialIp)
+	}
+	parts[len(parts)-1] += " mk=" + last[1]
+	return strings.Join(parts, " ; ") + " probe=" + c18Bool(probed)
 }
 
 func TestVerifC18(t *testing.T) {
@@ -568,6 +692,8 @@ func TestVerifC18(t *testing.T) {
 	// ------------------------------------------------ stateful world (virtual time)
 	w := &c18World{log: log}
 	var dialLog []string
+	var dialAt []time.Time
+	dialOK := false
 	failNext := 0
 	// two interchangeable node dialers per group: after a forced-unavailable report the retry of
 	// routeDial finds the other one.  Rebuilt after every injected failure (fresh health state).
@@ -576,7 +702,7 @@ func TestVerifC18(t *testing.T) {
 		for i := 0; i < 5; i++ {
 			var ds []*componentdialer.Dialer
 			for j := 0; j < 2; j++ {
-				ds = append(ds, componentdialer.NewDialer(&c18RecDialer{tag: i, log: &dialLog, failNext: &failNext},
+				ds = append(ds, componentdialer.NewDialer(&c18RecDialer{tag: i, log: &dialLog, failNext: &failNext, at: &dialAt, ok: &dialOK},
 					&componentdialer.GlobalOption{Log: log, CheckInterval: time.Second},
 					componentdialer.InstanceOption{DisableCheck: true}, &componentdialer.Property{}))
 			}
@@ -594,6 +720,15 @@ func TestVerifC18(t *testing.T) {
 		w.perRes[idx]++
 		if h := w.hold; h != nil {
 			<-h // the probe stays in flight until the harness releases it
+		}
+		if h := w.holdNames[host]; h != nil {
+			// this name's resolvers do not answer until the harness releases them — or the probe's own
+			// context (realDomainProbeTimeout, generation cancel) ends first, as a real lookup would
+			select {
+			case <-h:
+			case <-ctx.Done():
+				return &netutils.Ip46{}, ctx.Err(), ctx.Err()
+			}
 		}
 		toks := w.script[host]
 		tok := "0011"
@@ -627,10 +762,33 @@ func TestVerifC18(t *testing.T) {
 
 	nEpisodes := 1500
 	if VThorough() {
-		nEpisodes = 40000
+		nEpisodes = 32000
 	}
 	modes := []string{"ip", "domain", "domain", "domain", "domain+", "domain++"}
 	src := netip.MustParseAddrPort("192.0.2.10:12345")
+
+	// tunables the property does not fix, read from the running code and handed to the driver
+	var exPorts []int
+	for p := range tcpSniffingExcludedPorts {
+		exPorts = append(exPorts, int(p))
+	}
+	sort.Ints(exPorts)
+	exToks := make([]string, len(exPorts))
+	for i, p := range exPorts {
+		exToks[i] = strconv.Itoa(p)
+	}
+	tunLine := fmt.Sprintf("tun %d %d %s %d %d", tcpSniffFailureThreshold, int64(tcpSniffNegativeCacheTTL), strings.Join(exToks, ","),
+		0x100, int64(tcpRoutingLookupRetryAttempts-1)*int64(tcpRoutingLookupRetryDelay))
+	// the kernel's conn_state_map as a real kernel hash map (handleConn reads the flow's routing tuple from it)
+	if m := c18NewConnStateMap(); m != nil {
+		defer m.Close()
+		objs := &bpfObjects{}
+		objs.ConnStateMap = m
+		core := &controlPlaneCore{}
+		core.bpf.Store(objs)
+		w.connMap, w.core = m, core
+		stats.Inc("conn.kernel-map-available")
+	}
 
 	synctest.Test(t, func(t *testing.T) {
 		// ---- saturation episode: many names verified by positive probes (real probeAndUpdateRealDomain).
@@ -671,6 +829,7 @@ func TestVerifC18(t *testing.T) {
 			w.reset()
 			// tunables the property does not fix are taken from the running code
 			st.Emit(fmt.Sprintf("reset %d %d", int64(realDomainNegativeCacheTTL), minFirefoxCacheTtl), "ok")
+			st.Emit(tunLine, "ok")
 			mode := modes[r.Intn(len(modes))]
 			setMode := func(m string) {
 				mode = m
@@ -679,11 +838,7 @@ func TestVerifC18(t *testing.T) {
 			}
 			setMode(mode)
 			nboot := []int{1, 1, 2, 3, 0}[r.Intn(5)]
-			rs := make([]netip.AddrPort, nboot)
-			for i := range rs {
-				rs[i] = netip.AddrPortFrom(netip.AddrFrom4([4]byte{10, 0, 0, byte(i + 1)}), 53)
-			}
-			w.cp.bootstrapResolvers = rs
+			w.cp.bootstrapResolvers = c18Boots(nboot)
 			st.Emit(fmt.Sprintf("boot %d", nboot), "ok")
 
 			// the names this episode plays with
@@ -696,8 +851,8 @@ func TestVerifC18(t *testing.T) {
 				a := make([]string, nboot)
 				for i := range a {
 					a[i] = c18AnsToks[r.Intn(len(c18AnsToks))]
-					if r.Chance(0.04) {
-						a[i] = "T"
+					if r.Chance(0.04) && len(w.heldOrder) == 0 {
+						a[i] = "T" // (not while another probe is held: its context would expire as well)
 					}
 				}
 				w.script[name] = a
@@ -749,6 +904,230 @@ func TestVerifC18(t *testing.T) {
 					st.Emit(fmt.Sprintf("adv %d", int64(realDomainProbeTimeout+100*time.Millisecond)), "ok")
 				}
 			}
+			// ---- probes held in their resolver call
+			var heldBudget time.Duration // virtual time that may still pass before the oldest held probe's context expires
+			dropHeld := func(name string) {
+				delete(w.holdNames, name)
+				delete(w.heldStart, name)
+				for i, n := range w.heldOrder {
+					if n == name {
+						w.heldOrder = append(w.heldOrder[:i], w.heldOrder[i+1:]...)
+						break
+					}
+				}
+			}
+			releaseHeld := func(name string) {
+				ans := answers(name)
+				stats.Inc("op.rel")
+				if time.Since(w.heldStart[name]) > 0 {
+					stats.Inc("op.rel.after-time-passed")
+				}
+				st.Emit(strings.TrimRight(fmt.Sprintf("rel %s %s", c18Hex(name), strings.Join(ans, " ")), " "), VRecover(func() string {
+					ch := w.holdNames[name]
+					dropHeld(name)
+					close(ch)
+					synctest.Wait()
+					return "ok"
+				}))
+			}
+			expireHeld := func() {
+				// the probes' own context (realDomainProbeTimeout) expires: both lookups fail, nothing is cached
+				stats.Inc("op.held-expired")
+				time.Sleep(realDomainProbeTimeout)
+				synctest.Wait()
+				st.Emit(fmt.Sprintf("adv %d", int64(realDomainProbeTimeout)), "ok")
+				for len(w.heldOrder) > 0 {
+					name := w.heldOrder[0]
+					dropHeld(name)
+					st.Emit("relx "+c18Hex(name), "ok")
+				}
+			}
+			// ---- whole connections (handleConn)
+			connDsts := []netip.AddrPort{gen.dst(), gen.dst()}
+			for i := range connDsts {
+				if p := connDsts[i].Port(); p == 53 || tcpSniffingExcludedPorts[p] {
+					connDsts[i] = netip.AddrPortFrom(connDsts[i].Addr(), 443)
+				}
+			}
+			doConn := func(dst netip.AddrPort, kind string, kob int, metaTok string, meta proxyDialParam, fail int, sniffOn bool) {
+				if w.connMap == nil {
+					kob = -1
+				}
+				if kob < 0 {
+					// no routing tuple: handleConn falls back to an all-zero routing result with OutboundControlPlaneRouting
+					metaTok, meta = "m=-", proxyDialParam{}
+				}
+				ob := kob
+				if kob < 0 {
+					ob = int(consts.OutboundControlPlaneRouting)
+				}
+				// `dst` = the socket's local address as the kernel reports it (possibly IPv4-mapped); handleConn works
+				// with the converged address
+				local := dst
+				dst = netip.AddrPortFrom(local.Addr().Unmap(), local.Port())
+				raw, class := genA.domain(pool)
+				if mode != "ip" && r.Chance(0.4) {
+					raw, class = pool[r.Intn(len(pool))], "name"
+				}
+				raw = strings.NewReplacer("\r", "r", "\n", "n").Replace(raw)
+				var payload []byte
+				switch kind {
+				case "http":
+					if r.Chance(0.3) {
+						raw = []string{" ", "\t", "  "}[r.Intn(3)] + raw
+					}
+					if r.Chance(0.3) {
+						raw += []string{" ", "\t", " \t "}[r.Intn(3)]
+					}
+					payload = c18HTTPHead([]string{"GET", "POST", "HEAD"}[r.Intn(3)], true, raw)
+				case "httpnohost":
+					raw, payload = "", c18HTTPHead("GET", false, "")
+				case "tls":
+					if len(raw) > 250 {
+						raw = raw[:250]
+					}
+					payload = c18ClientHello(true, raw, byte(r.Intn(256)))
+				case "tlsnosni":
+					raw, payload = "", c18ClientHello(false, "", byte(r.Intn(256)))
+				case "opaque":
+					raw, payload = "", []byte("SSH-2.0-OpenSSH_9.6 c18\r\n")
+				default: // silent
+					raw = ""
+				}
+				tmo := 100 * time.Millisecond
+				if !sniffOn {
+					tmo = 0 // sniffing disabled (what the constructor sets for dial_mode ip)
+				}
+				// the harness's prediction of the sniffed name (the REAL sniffer on the same bytes): only used to
+				// ask the REAL Route for its answers with and without that name, and to script the probe
+				sd, sniffable := c18SniffBytes(payload)
+				mapped := local.Addr().Is4In6() || (local.Addr().Is4() && r.Chance(0.3))
+				locTok := c18DstTok(local)
+				if mapped {
+					b := local.Addr().As16()
+					locTok = fmt.Sprintf("6:%s:%d", hex.EncodeToString(b[:]), local.Port())
+				}
+				nOut := []int{5, 5, 5, 5, 5, 5, 4, 3}[r.Intn(8)]
+				if mode == "domain" {
+					nOut = 5
+				}
+				w.cp.outbounds = w.allOuts[:nOut]
+				rr := &bpfRoutingResult{Outbound: uint8(ob), Mac: meta.Mac, Pname: meta.ProcessName, Dscp: meta.Dscp, Mark: meta.Mark}
+				routeTok := func(name string) (string, uint32) {
+					var mk uint32
+					tok := VRecover(func() string {
+						o, m, _, err := w.cp.Route(src, dst, name, consts.L4ProtoType_TCP, rr)
+						if err != nil {
+							return "err"
+						}
+						mk = m
+						return strconv.Itoa(int(o))
+					})
+					if strings.HasPrefix(tok, "crash:") {
+						tok = "err"
+					}
+					return tok, mk
+				}
+				rt0, rm0 := routeTok("")
+				rt1, rm1 := routeTok(sd)
+				ans := answers(sd)
+				for i := range ans {
+					if ans[i] == "T" {
+						ans[i] = "0011"
+					}
+				}
+				w.script[sd] = ans
+				kobTok := "-"
+				if kob >= 0 {
+					kobTok = strconv.Itoa(kob)
+				}
+				failTok := strconv.Itoa(fail)
+				stats.Inc("conn.kind." + kind)
+				stats.Inc("conn.mode." + mode)
+				stats.Inc("conn.class." + class)
+				if kob < 0 {
+					stats.Inc("conn.tuple-missing")
+				} else {
+					stats.Inc("conn.kernel-tuple")
+				}
+				if mapped {
+					stats.Inc("conn.local-addr-ipv4-mapped")
+				}
+				// read-only look at the sniff negative cache: is sniffing suppressed for this flow signature?
+				if e, ok := w.cp.tcpSniffNegSet[newTcpSniffNegKey(dst, rr)]; ok && e.failures >= tcpSniffFailureThreshold && e.expiresAtUnixNano > time.Now().UnixNano() {
+					stats.Inc("conn.sniff-suppressed")
+					if sniffable && sd != "" {
+						stats.Inc("conn.sniff-suppressed.sniffable-payload")
+					}
+				}
+				op := fmt.Sprintf("conn %s %s %s %s %d %s %s %d %d %d %s %s/%d/0 %s", kobTok, locTok, kind, c18Hex(raw), int64(tmo), rt0, rt1, rm0, rm1,
+					nOut, failTok, metaTok, meta.Mark, strings.Join(ans, " "))
+				var elapsed time.Duration
+				st.Emit(strings.TrimRight(op, " "), VRecover(func() string {
+					w.calls = 0
+					dialLog, dialAt = dialLog[:0], dialAt[:0]
+					dialOK = false
+					failNext = fail
+					w.cp.sniffingTimeout = tmo
+					if kob >= 0 {
+						if err := c18PutTuple(w.connMap, src, dst, c18Tuple{outbound: uint8(kob), mark: meta.Mark, dscp: meta.Dscp, mac: meta.Mac, pname: meta.ProcessName}); err != nil {
+							return "harness:conn_state_map put: " + err.Error()
+						}
+						defer c18DelTuple(w.connMap, src, dst)
+					}
+					cl, srv := net.Pipe()
+					lConn := &c18PipeConn{Conn: srv, local: c18TCPAddr(dst, mapped), remote: c18TCPAddr(src, false)}
+					t0 := time.Now()
+					go func() {
+						if len(payload) > 0 {
+							_, _ = cl.Write(payload)
+						}
+						time.Sleep(tmo + time.Second)
+						_ = cl.Close()
+					}()
+					herr := w.cp.handleConn(context.Background(), lConn)
+					if herr != nil && len(dialLog) == 0 && os.Getenv("C18X_DEBUG") != "" {
+						fmt.Fprintln(os.Stderr, "C18X handleConn:", herr)
+					}
+					failNext = 0
+					settle(ans)
+					// let the client side finish (its linger is virtual time)
+					time.Sleep(tmo + 2*time.Second)
+					synctest.Wait()
+					elapsed = time.Since(t0)
+					if fail == 1 {
+						buildGroups()
+					}
+					var derr error
+					if !dialOK {
+						derr = errors.New("no dial succeeded")
+					}
+					if len(dialLog) > 0 {
+						p := strings.SplitN(dialLog[len(dialLog)-1], "|", 3)
+						if p[2] != dst.String() {
+							stats.Inc("conn.result.name-dialled")
+						}
+						if p[0] != kobTok {
+							stats.Inc("conn.result.routed-in-userspace")
+						}
+					}
+					out := c18FmtDials(dialLog, fail != 0, nil, derr, w.calls > 0)
+					if len(dialAt) > 0 {
+						out += fmt.Sprintf(" at=%d", int64(dialAt[0].Sub(t0)))
+					}
+					// implementation-side oracles (no model)
+					if (mode == "ip" || !sniffOn || kob == 0 || kob == 1) && len(dialLog) > 0 {
+						for _, e := range dialLog {
+							if p := strings.SplitN(e, "|", 3); p[2] != dst.String() {
+								out += " ORACLE:name-dialled-on-a-connection-that-must-use-the-ip"
+								break
+							}
+						}
+					}
+					return out
+				}))
+				st.Emit(fmt.Sprintf("connend %d", int64(elapsed)), "ok")
+			}
 			if ep%8 == 0 {
 				// directed scenario (known finding c18-pipe-in-qname-crosses-knowledge-family, fixed in 4e63a53): one
 				// NOERROR response for "<victim>.1|x.attacker.example." must not make <victim> genuine
@@ -783,9 +1162,67 @@ func TestVerifC18(t *testing.T) {
 					return out
 				}))
 			}
-			nOps := 12 + r.Intn(30)
+			if ep%8 == 3 && nboot > 0 {
+				// directed scenario: a probe that takes a while. The negative entry is stamped from the probe's START
+				// (probeAndUpdateRealDomain takes `now` before the lookups): it ends exactly realDomainNegativeCacheTTL after
+				// the start, not after the completion.
+				name := fmt.Sprintf("slow-probe-%d.invalid", ep)
+				setMode("domain")
+				dstS := netip.MustParseAddrPort("203.0.113.10:443")
+				w.holdNames[name] = make(chan struct{})
+				stats.Inc("op.slow-probe-scenario")
+				st.Emit(fmt.Sprintf("cdth 2 %s %s", c18DstTok(dstS), c18Hex(name)), VRecover(func() string {
+					w.calls = 0
+					target, reroute, dialIp := w.cp.ChooseDialTarget(2, dstS, name)
+					synctest.Wait()
+					started := w.calls > 0
+					if started {
+						w.heldStart[name] = time.Now()
+						w.heldOrder = append(w.heldOrder, name)
+					} else {
+						delete(w.holdNames, name)
+					}
+					return fmt.Sprintf("t=%s rr=%s ip=%s started=%s", c18Hex(target), c18Bool(reroute), c18Bool(dialIp), c18Bool(started))
+				}))
+				if len(w.heldOrder) == 1 {
+					took := []time.Duration{time.Millisecond, 100 * time.Millisecond, realDomainProbeTimeout - time.Millisecond}[r.Intn(3)]
+					time.Sleep(took)
+					st.Emit(fmt.Sprintf("adv %d", int64(took)), "ok")
+					ansS := make([]string, nboot)
+					for i := range ansS {
+						ansS[i] = "0000" // no address, no error: "no such name"
+					}
+					w.script[name] = ansS
+					st.Emit(fmt.Sprintf("rel %s %s", c18Hex(name), strings.Join(ansS, " ")), VRecover(func() string {
+						ch := w.holdNames[name]
+						dropHeld(name)
+						close(ch)
+						synctest.Wait()
+						return "ok"
+					}))
+					rest := realDomainNegativeCacheTTL - took
+					for _, step := range []time.Duration{rest - 1, 1} {
+						time.Sleep(step)
+						st.Emit(fmt.Sprintf("adv %d", int64(step)), "ok")
+						st.Emit("look "+c18Hex(name), VRecover(func() string {
+							k, re := w.cp.lookupRealDomainCache(name)
+							return "known=" + c18Bool(k) + " real=" + c18Bool(re)
+						}))
+					}
+				}
+			}
+			nOps := 14 + r.Intn(34)
 			for k := 0; k < nOps; k++ {
-				switch c := r.Intn(24) - 4; {
+				// probes held in their resolver call: release one, or let their context expire
+				if len(w.heldOrder) > 0 {
+					switch {
+					case r.Chance(0.3):
+						releaseHeld(w.heldOrder[0])
+					case r.Chance(0.06):
+						expireHeld()
+					}
+				}
+				switch c := r.Intn(31) - 4; {
 				case c < -2: // a DNS response as it arrives from the upstream (gate of NormalizeAndCacheDnsResp_)
 					host := pool[r.Intn(len(pool))]
 					if r.Chance(0.2) {
@@ -831,6 +1268,12 @@ func TestVerifC18(t *testing.T) {
 						stats.Inc("op.dnsresp.error-rcode")
 					}
 					op := fmt.Sprintf("dnsresp %s %s %s %s %d %s %s", c18Bool(isResp), c18Bool(hasQ), c18Bool(rcode == dnsmessage.RcodeSuccess), c18Hex(qname), qtype, ttlTok, c18Hex(key))
+					fault := 0
+					if r.Chance(0.12) {
+						fault = 1 + r.Intn(2)
+						op += fmt.Sprintf(" f%d", fault)
+						stats.Inc(fmt.Sprintf("op.dnsresp.fault%d", fault))
+					}
 					st.Emit(op, VRecover(func() string {
 						n0 := 0
 						w.ctrl.dnsCache.Range(func(_, _ any) bool { n0++; return true })
@@ -838,8 +1281,25 @@ func TestVerifC18(t *testing.T) {
 						if key == "" {
 							_, had = w.ctrl.dnsCache.Load(w.ctrl.cacheKey(strings.ToLower(qname), qtype))
 						}
-						if err := w.ctrl.NormalizeAndCacheDnsResp_(msg, key); err != nil {
+						w.failNewCache, w.failAccessCb = fault == 1, fault == 2
+						err := w.ctrl.NormalizeAndCacheDnsResp_(msg, key)
+						w.failNewCache, w.failAccessCb = false, false
+						gated := !isResp || !hasQ || rcode != dnsmessage.RcodeSuccess
+						if err != nil && (fault == 0 || gated) {
 							return "err:" + err.Error()
+						}
+						if fault != 0 && !gated {
+							if err == nil {
+								return "injected-fault-not-reported"
+							}
+							if fault == 2 {
+								usedKey := key
+								if usedKey == "" {
+									usedKey = w.ctrl.cacheKey(strings.ToLower(qname), qtype)
+								}
+								keys = append(keys, usedKey)
+							}
+							return "err"
 						}
 						if !isResp || !hasQ || rcode != dnsmessage.RcodeSuccess {
 							n1 := 0
@@ -941,10 +1401,18 @@ func TestVerifC18(t *testing.T) {
 						}))
 					case 0: // reload: clone the cache, restore it into a fresh store
 						stats.Inc("op.reload")
-						st.Emit("reload", VRecover(func() string {
+						rop, rfault := "reload", r.Chance(0.25)
+						if rfault {
+							// every domain-routing update of the restore fails (kernel map batch update error)
+							rop = "reload f2"
+							stats.Inc("op.reload.fault2")
+						}
+						st.Emit(rop, VRecover(func() string {
 							entries := w.ctrl.CloneCacheForReload()
 							fresh := w.newCtrl()
+							w.failAccessCb = rfault
 							n := fresh.RestoreReloadCache(entries, nil, time.Now())
+							w.failAccessCb = false
 							w.ctrl = fresh
 							w.cp.dnsController = fresh
 							return fmt.Sprintf("restored=%d", n)
@@ -992,25 +1460,42 @@ func TestVerifC18(t *testing.T) {
 					fq := dnsmessage.CanonicalName(host)
 					ans := []dnsmessage.RR{&dnsmessage.A{Hdr: dnsmessage.RR_Header{Name: fq, Rrtype: dnsmessage.TypeA, Class: dnsmessage.ClassINET, Ttl: 0}, A: net.IPv4(93, 184, 216, 34)}}
 					op := fmt.Sprintf("dns %s %s %d %s", c18Hex(host), fam, int64(ttl)*1e9, c18Hex(key))
+					// fault injection: 1 = the NewCache hook fails (nothing may be stored), 2 = the cache-access callback
+					// (production: the kernel map batch update) fails after the entry was stored
+					fault := 0
+					if r.Chance(0.12) {
+						fault = 1 + r.Intn(2)
+						op += fmt.Sprintf(" f%d", fault)
+						stats.Inc(fmt.Sprintf("op.dns.fault%d", fault))
+					}
 					stats.Inc("op.dns")
 					st.Emit(op, VRecover(func() string {
 						before := 0
 						w.ctrl.dnsCache.Range(func(_, _ any) bool { before++; return true })
 						var err error
 						usedKey := key
+						w.failNewCache, w.failAccessCb = fault == 1, fault == 2
 						if key == "" {
 							err = w.ctrl.UpdateDnsCacheTtl(host, qtype, ans, nil, nil, ttl)
 						} else {
 							err = w.ctrl.UpdateDnsCacheTtlWithKey(key, host, qtype, ans, nil, nil, ttl)
 						}
-						if err != nil {
-							return "err:" + err.Error()
-						}
+						w.failNewCache, w.failAccessCb = false, false
 						// "bypass" = pure IP: nothing stored
 						h := strings.TrimSuffix(host, ".")
-						if _, e := netip.ParseAddr(h); e == nil {
+						_, eAddr := netip.ParseAddr(h)
+						if err != nil && (fault == 0 || eAddr == nil) {
+							return "err:" + err.Error()
+						}
+						if eAddr == nil {
 							stats.Inc("op.dns.bypass")
 							return "bypass"
+						}
+						if fault != 0 && err == nil {
+							return "injected-fault-not-reported"
+						}
+						if fault == 1 {
+							return "err"
 						}
 						if usedKey == "" {
 							fqdn := dnsmessage.CanonicalName(host)
@@ -1020,6 +1505,9 @@ func TestVerifC18(t *testing.T) {
 							usedKey = w.ctrl.cacheKey(fqdn, qtype)
 						}
 						keys = append(keys, usedKey)
+						if fault == 2 {
+							return "err"
+						}
 						return "ok"
 					}))
 				case c < 5:
@@ -1034,6 +1522,15 @@ func TestVerifC18(t *testing.T) {
 					st.Emit("rm "+c18Hex(key), VRecover(func() string { w.ctrl.RemoveDnsRespCache(key); return "ok" }))
 				case c < 8:
 					ns := []int64{0, 1, 999999999, 1e9, 1e9 + 1, 2e9, 5e9, 1e10 - 1, 1e10, 11e9, 30e9, 600e9}[r.Intn(12)]
+					if len(w.heldOrder) > 0 {
+						// a probe is held: stay below its context deadline (expiry is a scenario of its own)
+						ns = []int64{0, 1, 1e6, 5e7, 1e8}[r.Intn(5)]
+						if time.Duration(ns) > heldBudget {
+							continue
+						}
+						heldBudget -= time.Duration(ns)
+						stats.Inc("op.adv.while-probe-held")
+					}
 					stats.Inc("op.adv")
 					time.Sleep(time.Duration(ns))
 					st.Emit(fmt.Sprintf("adv %d", ns), "ok")
@@ -1194,7 +1691,7 @@ func TestVerifC18(t *testing.T) {
 								c18Hex(t2), c18Bool(rr2), c18Bool(ip2), c18Bool(w.calls > 0))
 						}))
 					}
-				default: // routeDial: what is actually sent to the node dialer
+				case c < 20: // routeDial: what is actually sent to the node dialer
 					ob := []int{2, 3, 4, 2, 3, 4, 0, 1, 0xFD, 0xFD, 7, 0xFC}[r.Intn(12)]
 					dst := gen.dst()
 					d, class := gen.domain(pool)
@@ -1223,25 +1720,27 @@ func TestVerifC18(t *testing.T) {
 					var meta proxyDialParam
 					metaTok := "m=-"
 					if r.Chance(0.35) {
-						switch r.Intn(3) {
-						case 0:
-							meta.Dscp, metaTok = 7, "m=dscp7"
-						case 1:
-							copy(meta.ProcessName[:], "curl")
-							metaTok = "m=curl"
-						default:
-							meta.Mac, metaTok = [6]uint8{2, 0, 0, 0, 0, 1}, "m=mac"
-						}
+						metaTok = c18GenMeta(r, &meta)
 						stats.Inc("dial.with-metadata")
 					}
+					// the mark of the kernel's routing tuple; the routing answer has its own
+					meta.Mark = []uint32{0, 0, 5, 0x100, 0xfffe}[r.Intn(5)]
 					w.cp.outbounds = w.allOuts[:nOut]
+					if udp {
+						proto = consts.L4ProtoType_UDP
+					}
+					routeMark := uint32(0)
 					rt := VRecover(func() string {
-						o, _, _, err := w.cp.Route(src, dst, d, proto, &bpfRoutingResult{Outbound: uint8(ob), Mac: meta.Mac, Pname: meta.ProcessName, Dscp: meta.Dscp})
+						o, mk, _, err := w.cp.Route(src, dst, d, proto, &bpfRoutingResult{Outbound: uint8(ob), Mac: meta.Mac, Pname: meta.ProcessName, Dscp: meta.Dscp, Mark: meta.Mark})
 						if err != nil {
 							return "err"
 						}
+						routeMark = mk
 						return strconv.Itoa(int(o))
 					})
+					if !udp {
+						metaTok += fmt.Sprintf("/%d/%d", meta.Mark, routeMark)
+					}
 					if strings.HasPrefix(rt, "crash:") {
 						stats.Inc("dial.route-crash")
 						stats.Sample("route-crash " + c18Hex(d) + " " + rt)
@@ -1289,7 +1788,7 @@ func TestVerifC18(t *testing.T) {
 						failNext = fail
 						_, res, err := w.cp.routeDial(context.Background(), &proxyDialParam{
 							Outbound: consts.OutboundIndex(ob), Domain: d, Src: src, Dest: dst, Network: "tcp",
-							Mac: meta.Mac, Dscp: meta.Dscp, ProcessName: meta.ProcessName,
+							Mac: meta.Mac, Dscp: meta.Dscp, ProcessName: meta.ProcessName, Mark: meta.Mark,
 						})
 						failNext = 0
 						settle(ans)
@@ -1298,14 +1797,6 @@ func TestVerifC18(t *testing.T) {
 						}
 						// the sequence of (group, address) handed to node dialers; an immediate repeat of the
 						// same dial without an injected failure (e.g. a dual-stack dial) is not a difference
-						var parts []string
-						for i, e := range dialLog {
-							if i > 0 && fail == 0 && e == dialLog[i-1] {
-								continue
-							}
-							p := strings.SplitN(e, "|", 2)
-							parts = append(parts, fmt.Sprintf("ob=%s t=%s", p[0], c18Hex(p[1])))
-						}
 						if len(dialLog) > 1 {
 							stats.Inc("dial.retried")
 							if dialLog[0] != dialLog[1] {
@@ -1314,22 +1805,173 @@ func TestVerifC18(t *testing.T) {
 						}
 						if err != nil {
 							stats.Inc("dial.err")
-							parts = append(parts, "err")
-							return strings.Join(parts, " ; ") // whether a probe was started is not compared when the dial fails anyway
 						} else {
-							last := strings.SplitN(dialLog[len(dialLog)-1], "|", 2)
-							if last[1] != res.DialTarget {
-								return "dialed-address-differs-from-DialTarget"
-							}
+							last := strings.SplitN(dialLog[len(dialLog)-1], "|", 3)
 							if last[0] != strconv.Itoa(ob) {
 								stats.Inc("dial.rerouted")
+								if last[1] != strconv.FormatUint(uint64(meta.Mark), 10) && meta.Mark != 0 {
+									stats.Inc("dial.rerouted.mark-replaced")
+								}
 							}
-							parts[len(parts)-1] += " ip=" + c18Bool(res.IsDialIp)
 						}
-						return strings.Join(parts, " ; ") + " probe=" + c18Bool(w.calls > 0)
+						return c18FmtDials(dialLog, fail != 0, res, err, w.calls > 0)
 					}))
 					afterT(ans)
+				case c < 23: // a whole connection through the real handleConn
+					if len(w.heldOrder) > 0 {
+						continue // (time passes inside: a held probe's context would expire in the middle)
+					}
+					if r.Chance(0.15) {
+						// a burst to one flow signature: failing sniffs until the negative cache suppresses
+						// sniffing, then a perfectly sniffable connection
+						dstB := connDsts[r.Intn(len(connDsts))]
+						n := int(tcpSniffFailureThreshold) - 1 + r.Intn(3)
+						for i := 0; i < n; i++ {
+							doConn(dstB, []string{"silent", "opaque", "httpnohost", "tlsnosni"}[r.Intn(4)], 2+r.Intn(3), "m=-", proxyDialParam{}, 0, true)
+						}
+						stats.Inc("conn.burst")
+						doConn(dstB, []string{"http", "tls"}[r.Intn(2)], 2+r.Intn(3), "m=-", proxyDialParam{}, 0, true)
+						continue
+					}
+					dst := gen.dst()
+					if r.Chance(0.6) {
+						dst = connDsts[r.Intn(len(connDsts))]
+					}
+					if r.Chance(0.1) {
+						dst = netip.AddrPortFrom(dst.Addr(), []uint16{22, 25, 3306, 6379, 27017}[r.Intn(5)])
+					}
+					if dst.Port() == 53 {
+						dst = netip.AddrPortFrom(dst.Addr(), 853) // (port 53 is the DNS fast path: C09's)
+					}
+					kind := []string{"http", "http", "http", "http", "tls", "tls", "tls", "silent", "opaque", "opaque", "httpnohost", "tlsnosni"}[r.Intn(12)]
+					kob := []int{-1, -1, 2, 3, 4, 2, 3, 4, 0, 1, 0xFD, 7}[r.Intn(12)]
+					var meta proxyDialParam
+					metaTok := "m=-"
+					if r.Chance(0.3) {
+						metaTok = c18GenMeta(r, &meta)
+					}
+					meta.Mark = []uint32{0, 0, 5, 0x100}[r.Intn(4)]
+					doConn(dst, kind, kob, metaTok, meta, []int{0, 0, 0, 0, 1, 2}[r.Intn(6)], r.Chance(0.85))
+				case c < 25: // ChooseDialTarget for a name whose resolvers do not answer yet: the probe stays in flight
+					name := pool[r.Intn(len(pool))]
+					if r.Chance(0.2) {
+						name = c18Names[r.Intn(len(c18Names))]
+					}
+					if len(w.heldOrder) > 0 && r.Chance(0.5) {
+						name = w.heldOrder[r.Intn(len(w.heldOrder))] // a second flow for a name whose probe is in flight
+					}
+					ob := 2 + r.Intn(3)
+					dst := gen.dst()
+					_, already := w.holdNames[name]
+					if !already {
+						if len(w.heldOrder) >= 2 {
+							continue
+						}
+						w.holdNames[name] = make(chan struct{})
+					}
+					stats.Inc("op.cdth")
+					st.Emit(fmt.Sprintf("cdth %d %s %s", ob, c18DstTok(dst), c18Hex(name)), VRecover(func() string {
+						w.calls = 0
+						target, reroute, dialIp := w.cp.ChooseDialTarget(consts.OutboundIndex(ob), dst, name)
+						synctest.Wait() // the probe (if any) is now blocked inside its first resolver call
+						started := w.calls > 0
+						if !already {
+							if started {
+								w.heldStart[name] = time.Now()
+								w.heldOrder = append(w.heldOrder, name)
+								if len(w.heldOrder) == 1 {
+									heldBudget = realDomainProbeTimeout - time.Millisecond
+								}
+								stats.Inc("op.cdth.probe-held")
+							} else {
+								delete(w.holdNames, name)
+							}
+						} else if started {
+							return "second-probe-started-for-a-name-in-flight"
+						} else {
+							stats.Inc("op.cdth.joined-the-probe-in-flight")
+						}
+						return fmt.Sprintf("t=%s rr=%s ip=%s started=%s", c18Hex(target), c18Bool(reroute), c18Bool(dialIp), c18Bool(started))
+					}))
+				case c < 26: // the datapath janitor's negative-cache sweep / a look at the sniff negative cache
+					if r.Chance(0.5) {
+						stats.Inc("op.negclean")
+						st.Emit("negclean", VRecover(func() string {
+							live := 0
+							now := time.Now().UnixNano()
+							w.cp.realDomainNegSet.Range(func(_, v any) bool {
+								if e, _ := v.(int64); now < e {
+									live++
+								}
+								return true
+							})
+							w.cp.cleanupNegativeCaches(time.Now())
+							n := 0
+							w.cp.realDomainNegSet.Range(func(_, _ any) bool { n++; return true })
+							if n < live {
+								stats.Inc("op.negclean.dropped-live")
+							}
+							if n > 0 {
+								stats.Inc("op.negclean.kept-live")
+							}
+							return fmt.Sprintf("neg=%d sn=%d", n, len(w.cp.tcpSniffNegSet))
+						}))
+					} else {
+						dst := connDsts[r.Intn(len(connDsts))]
+						var meta proxyDialParam
+						metaTok := "m=-"
+						if r.Chance(0.2) {
+							metaTok = c18GenMeta(r, &meta)
+						}
+						stats.Inc("op.sneg")
+						st.Emit(fmt.Sprintf("sneg %s %s", c18DstTok(dst), metaTok), VRecover(func() string {
+							key := newTcpSniffNegKey(netip.AddrPortFrom(dst.Addr().Unmap(), dst.Port()), &bpfRoutingResult{Pname: meta.ProcessName, Mac: meta.Mac, Dscp: meta.Dscp})
+							e, ok := w.cp.tcpSniffNegSet[key]
+							if !ok || e.expiresAtUnixNano <= time.Now().UnixNano() {
+								return "none"
+							}
+							stats.Inc("op.sneg.entry")
+							return fmt.Sprintf("f=%d", e.failures)
+						}))
+					}
+				default: // reload: a new ControlPlane generation (fresh verified-name filter, new dial_mode / resolvers)
+					newMode := modes[r.Intn(len(modes))]
+					newBoot := []int{1, 1, 2, 3, 0}[r.Intn(5)]
+					how := []string{"reuse", "restore"}[r.Intn(2)]
+					stats.Inc("op.gen." + how)
+					if len(w.heldOrder) > 0 {
+						stats.Inc("op.gen.with-probe-in-flight")
+					}
+					st.Emit(fmt.Sprintf("gen %s %d %s", newMode, newBoot, how), VRecover(func() string {
+						oldCP, oldCtrl := w.cp, w.ctrl
+						oldCP.cancel() // the old generation's context: probes in flight end with both lookups failed
+						synctest.Wait()
+						w.holdNames = map[string]chan struct{}{}
+						w.heldStart = map[string]time.Time{}
+						w.heldOrder = nil
+						var ctrl *DnsController
+						if how == "reuse" {
+							c2, err := oldCtrl.ReuseForReload(w.dnsOption(), nil)
+							if err != nil || c2 == nil {
+								return fmt.Sprintf("reuse-failed:%v", err)
+							}
+							ctrl = c2
+						} else {
+							entries := oldCtrl.CloneCacheForReload()
+							ctrl = w.newCtrl()
+							ctrl.RestoreReloadCache(entries, nil, time.Now())
+							_ = oldCtrl.Close()
+						}
+						w.ctrl = ctrl
+						w.cp = w.newCP(ctrl, c18Mode(newMode), c18Boots(newBoot))
+						w.cp.outbounds = w.allOuts
+						return "ok"
+					}))
+					mode, nboot = newMode, newBoot
 				}
+			}
+			for len(w.heldOrder) > 0 {
+				releaseHeld(w.heldOrder[0])
 			}
 			w.cp.cancel()
 		}
